@@ -19,3 +19,6 @@ def run(rep, tier, seed):
     # it started (EvLoaded), which is compared with the monitor's checkpoint store
     from harness.props import local_backend
     local_backend.campaign(rep, "C20", tier, seed)
+    # synchronous Hyperband: which paused trials the scheduler declares "never resumed" (deleted by RemoveCheckpointsCallback)
+    from harness.props import c05
+    rep.extra["synchb_removable_flags"] = c05.campaign_c20(rep, tier, seed)
